@@ -63,6 +63,10 @@ type c01Raw struct {
 	absent map[int]bool
 	dt     time.Duration
 	kinds  []string
+	// richgen (richGenerate): what every replica additionally replays
+	mid      []richMid          // keeper-level set-up steps, executed after BeginBlock and before the txs
+	evidence []abci.Misbehavior // double-sign evidence delivered with BeginBlock
+	proposer int                // index into the current validator set (0 = the old generator's behaviour)
 }
 
 func c01Generate(r *Rec, nBlocks int, withCustody bool, nAcc, nVal int) []c01Raw {
@@ -224,32 +228,63 @@ func c01Generate(r *Rec, nBlocks int, withCustody bool, nAcc, nVal int) []c01Raw
 }
 
 type c01Obs struct {
-	hash    string
-	results []string
-	updates string
-	panicAt string
+	hash     string
+	results  []string
+	updates  string
+	panicAt  string
+	stores   []string // "<store>:<commit hash>" of every module store after the block (names the diverging store)
+	panicVal string // the panic value (C06 classifies it)
+	updErr   string // CometBFT refused the validator updates
 }
 
 func c01Run(hist []c01Raw, nAcc, nVal int, pause time.Duration) ([]c01Obs, *World) {
+	return c01RunRestart(hist, nAcc, nVal, pause, nil)
+}
+
+// c01RunRestart: as c01Run; the replica is restarted (new application instance on the same database) after every block
+// whose 1-based number is in restartAfter
+func c01RunRestart(hist []c01Raw, nAcc, nVal int, pause time.Duration, restartAfter map[int]bool) ([]c01Obs, *World) {
 	w := NewWorld(WorldOpts{NAcc: nAcc, NVal: nVal, SudoAccs: []int{nAcc - 1}})
 	var obs []c01Obs
-	for _, raw := range hist {
+	for bi, raw := range hist {
+		if restartAfter[bi] { // bi blocks have been committed
+			w.Restart()
+		}
 		time.Sleep(pause)
 		absIdx := map[int]bool{}
 		for i := range raw.absent {
 			absIdx[i] = true
 		}
-		br := w.Block(raw.txs, BlockOpts{Absent: absIdx, Dt: raw.dt})
+		opts := BlockOpts{Absent: absIdx, Dt: raw.dt, Proposer: raw.proposer, Evidence: raw.evidence}
+		if len(raw.mid) > 0 {
+			mids := raw.mid
+			opts.Mid = func(ctx sdk.Context) {
+				for _, m := range mids {
+					m(w, ctx)
+				}
+			}
+		}
+		br := w.Block(raw.txs, opts)
 		o := c01Obs{hash: hex.EncodeToString(br.AppHash), updates: c01Updates(br.Updates)}
 		for _, res := range br.Results {
 			o.results = append(o.results, c01Digest(*res))
 		}
 		if br.Panicked != nil {
 			o.panicAt = br.Phase
+			o.panicVal = c06Site(br.Panicked, br.Stack)
 			obs = append(obs, o)
 			break
 		}
-		w.ApplyUpdates(br.Updates)
+		for _, name := range c01Stores {
+			if key := w.app.GetKey(name); key != nil && key.Name() != "" {
+				o.stores = append(o.stores, name+":"+hex.EncodeToString(w.app.CommitMultiStore().GetCommitKVStore(key).LastCommitID().Hash))
+			}
+		}
+		if err := w.ApplyUpdates(br.Updates); err != nil {
+			o.updErr = err.Error()
+			obs = append(obs, o)
+			break
+		}
 		obs = append(obs, o)
 	}
 	return obs, w
@@ -276,39 +311,92 @@ func c01StoreDiff(a, b *World) []string {
 		}
 	}
 	sort.Strings(out)
-	if len(out) > 6 {
-		out = out[:6]
+	return out
+}
+
+// c01Replay renders a history for a failure report: per block the time step, the absent validators, the proposer,
+// the evidence and the kinds of the transactions (the bytes are reproduced by the seed)
+func c01Replay(hist []c01Raw, upTo int) []string {
+	var out []string
+	for b, raw := range hist {
+		if b > upTo {
+			break
+		}
+		out = append(out, fmt.Sprintf("block %d: dt=%s absent=%v proposer=%d evidence=%d mid=%d txs=[%s]", b+1, raw.dt, sortedKeys(raw.absent), raw.proposer, len(raw.evidence), len(raw.mid), strings.Join(raw.kinds, ",")))
 	}
 	return out
 }
 
 func runC01(r *Rec) {
-	nHist, nBlocks, k := 5, 14, 3
+	nOld, nRich, nBlocks, nRichBlocks, k := 4, 10, 14, 36, 3
 	if r.Tier == "thorough" {
-		nHist, nBlocks, k = 60, 30, 4
+		nOld, nRich, nBlocks, nRichBlocks, k = 60, 60, 30, 60, 4
 	}
-	nAcc, nVal := 6, 2
-	for h := 0; h < nHist*2; h++ {
-		withCustody := h%2 == 1
-		hist := c01Generate(r, nBlocks, withCustody, nAcc, nVal)
+	for h := 0; h < nOld+nRich; h++ {
+		nAcc, nVal := 6, 2
+		var hist []c01Raw
+		withCustody := false
+		label := ""
+		if h < nOld {
+			withCustody = h%2 == 1
+			hist = c01Generate(r, nBlocks, withCustody, nAcc, nVal)
+			label = fmt.Sprintf("history/%d/custody=%v", h, withCustody)
+		} else {
+			// rich histories: every module's message types; custody level 0 / 1 (single-entry maps: deterministic) / 2
+			// (multi-entry maps: the recorded map-marshal-order finding)
+			nAcc, nVal = 10, 4
+			o := RichOpts{NBlocks: nRichBlocks, NAcc: nAcc, NVal: nVal, Custody: []int{0, 1, 0, 2, 1, 0}[(h-nOld)%6], Label: fmt.Sprintf("rich-%d", h)}
+			withCustody = o.Custody == 2
+			hist = richGenerate(r, o)
+			label = fmt.Sprintf("rich-history/%d/custody-level=%d", h, o.Custody)
+		}
 		var all [][]c01Obs
 		var worlds []*World
+		// replica 1 is restarted after one or two random blocks (a new application instance on the same database) while
+		// the others keep running: anything held in memory that is not re-derived from the store shows as a divergence
+		restarts := map[int]bool{}
+		if len(hist) > 2 {
+			restarts[1+r.Rng.Intn(len(hist)-1)] = true
+			// ... and right after a block that carried a rolled-back transaction (its dependent transactions follow)
+			var after []int
+			for b, raw := range hist {
+				for _, kd := range raw.kinds {
+					if strings.HasPrefix(kd, "rollback:") && b+1 < len(hist) {
+						after = append(after, b+1)
+						break
+					}
+				}
+			}
+			if len(after) > 0 {
+				restarts[after[r.Rng.Intn(len(after))]] = true
+			} else if r.Rng.Intn(2) == 0 {
+				restarts[1+r.Rng.Intn(len(hist)-1)] = true
+			}
+		}
 		for rep := 0; rep < k; rep++ {
-			o, w := c01Run(hist, nAcc, nVal, time.Duration(rep)*time.Millisecond)
+			var ra map[int]bool
+			if rep == 1 {
+				ra = restarts
+			}
+			o, w := c01RunRestart(hist, nAcc, nVal, time.Duration(rep)*time.Millisecond, ra)
 			all = append(all, o)
 			worlds = append(worlds, w)
 		}
+		r.Count(fmt.Sprintf("restarts-of-replica-1:%d", len(restarts)))
 		// and one re-run of "the same replica", later
 		time.Sleep(5 * time.Millisecond)
 		o, w := c01Run(hist, nAcc, nVal, 0)
 		all = append(all, o)
 		worlds = append(worlds, w)
 		diverged := ""
-		var diff []string
+		divBlock := 0
+		var diff, divStores []string
+		otherStore := false
 		for rep := 1; rep < len(all) && diverged == ""; rep++ {
 			for b := range all[0] {
 				if b >= len(all[rep]) {
 					diverged = fmt.Sprintf("replica %d stopped at block %d", rep, b+1)
+					divBlock = b
 					break
 				}
 				x, y := all[0][b], all[rep][b]
@@ -319,32 +407,77 @@ func runC01(r *Rec) {
 					}
 					if strings.Join(x.results, ",") != strings.Join(y.results, ",") {
 						what = "transaction results"
+						for i := range x.results {
+							if i < len(y.results) && x.results[i] != y.results[i] && i < len(hist[b].kinds) {
+								what = fmt.Sprintf("the result of transaction %d (%s)", i+1, hist[b].kinds[i])
+								break
+							}
+						}
 					}
 					diverged = fmt.Sprintf("replica 0 and replica %d differ in %s after block %d (%s vs %s)", rep, what, b+1, x.hash[:12], y.hash[:12])
+					divBlock = b
 					diff = c01StoreDiff(worlds[0], worlds[rep])
+					// the stores whose commit hash differs in ANY block (a record that diverged can be overwritten with equal
+					// bytes later, so the final store diff alone can be empty)
+					seen := map[string]bool{}
+					for bb := b; bb < len(all[0]) && bb < len(all[rep]); bb++ {
+						xs, ys := all[0][bb].stores, all[rep][bb].stores
+						for i := range xs {
+							if i < len(ys) && xs[i] != ys[i] {
+								name := xs[i][:strings.Index(xs[i], ":")]
+								if !seen[name] {
+									seen[name] = true
+									divStores = append(divStores, fmt.Sprintf("%s(block %d)", name, bb+1))
+									if name != "custody" {
+										otherStore = true
+									}
+								}
+							}
+						}
+					}
 					break
 				}
 			}
 		}
-		r.Case(fmt.Sprintf("history/%d/custody=%v", h, withCustody), true)
+		r.Case(label, true)
 		r.Evals += len(hist) * len(all)
-		r.Count(fmt.Sprintf("history:custody=%v:diverged=%v", withCustody, diverged != ""))
+		r.Count(fmt.Sprintf("history:rich=%v:custody=%v:diverged=%v", h >= nOld, withCustody, diverged != ""))
 		if diverged != "" {
-			onlyCustody := len(diff) > 0
+			onlyCustody := len(divStores) > 0 && !otherStore
 			for _, d := range diff {
 				if !strings.HasPrefix(d, "custody/") {
 					onlyCustody = false
 				}
 			}
+			shown := diff
+			if len(shown) > 8 {
+				// the first records of every store (a custody difference must not hide another store's)
+				var pick []string
+				last := ""
+				for _, d := range diff {
+					st := d[:strings.Index(d, "/")]
+					if st != last || len(pick) < 4 {
+						pick = append(pick, d)
+					}
+					last = st
+					if len(pick) >= 12 {
+						break
+					}
+				}
+				shown = append(pick, fmt.Sprintf("… %d records in all", len(diff)))
+			}
 			if withCustody && onlyCustody {
-				r.Known("C01/custody/map-marshal-order", fmt.Sprintf("%s; differing records: %s", diverged, strings.Join(diff, " ")))
+				r.Known("C01/custody/map-marshal-order", fmt.Sprintf("%s; diverging stores: %s; differing records at the end: %s", diverged, strings.Join(divStores, " "), strings.Join(shown, " ")))
 			} else {
-				r.Fail("C01/replicas-diverge", fmt.Sprintf("history %d: %s; differing records: %s", h, diverged, strings.Join(diff, " ")), nil)
+				if strings.Contains(diverged, "replica 1 ") {
+					diverged += fmt.Sprintf(" [replica 1 was restarted after blocks %v]", sortedKeys(restarts))
+				}
+				r.Fail("C01/replicas-diverge", fmt.Sprintf("%s: %s; diverging stores: %s; differing records at the end: %s", label, diverged, strings.Join(divStores, " "), strings.Join(shown, " ")), c01Replay(hist, divBlock))
 			}
 		}
 	}
 	// the deterministic part of the model side: nothing to send to the model driver except a marker (C01's tie is the
 	// regenerated table + this replica run; the model theorems are about machines that take no environment)
 	r.Mark("replica runs done")
-	r.Extra["rule"] = fmt.Sprintf("%d histories x %d blocks (bank send/multisend, identity records, polls, proposals + votes, staking pools + delegations, custody records with 3-entry maps in every second history) on %d replicas + 1 re-run started at different instants; compared after every block: app hash, per-tx result digest (code, data, events), validator updates; raw store diff on mismatch", nHist*2, nBlocks, k)
+	r.Extra["rule"] = fmt.Sprintf("%d old-style histories x %d blocks (bank send/multisend, identity records, polls, proposals + votes, staking pools + delegations, custody records with 3-entry maps in every second history) and %d rich histories x %d blocks generated by richGenerate (signed transactions of every module's message types incl. proposals that pass and are enacted, time jumps over every period, absences up to inactivation, double-sign evidence, changing proposers, keeper-level set-up replayed by every replica) on %d replicas + 1 re-run started at different instants; compared after every block: app hash, per-tx result digest (code, data, events), validator updates; raw store diff on mismatch", nOld, nBlocks, nRich, nRichBlocks, k)
 }
